@@ -160,6 +160,14 @@ func execC24(c run.Case) (res run.Result) {
 			}
 		}
 	}
+	for i := range d.Shapes {
+		// … also when dagre/ELK themselves moved the label outside because it is larger than the
+		// (then childless) sequence-diagram placeholder (positionLabelsIcons)
+		s := &d.Shapes[i]
+		if s.Type == d2target.ShapeSequenceDiagram && !inNear(s.ID) && s.Label != "" && (s.LabelWidth > s.Width || s.LabelHeight > s.Height) {
+			cause = "main-label-position-overridden-after-near-layout"
+		}
+	}
 	if g != nil {
 		for _, o := range g.Objects {
 			if inNear(o.AbsID()) || o.Attributes.LabelPosition == nil || o.LabelPosition == nil {
